@@ -251,6 +251,53 @@ theorem C28_compose {w : Nat → Block} (hw : WF w) {s : Bucket} (h : Reach w s)
     Visible s n → Complete s n :=
   (reach_good hw h).complete n
 
+/-- the uploaders -/
+inductive Uploader where
+  | upload | ship | replicate
+
+def uploaderScript (u : Uploader) (s : Bucket) (n : Nat) (b : Block) : List Call :=
+  match u with
+  | .upload => uploadScript codeUploadOrder n b
+  | .ship => shipScript codeUploadOrder s n b
+  | .replicate => replicateScript codeReplicateOrder s n b
+
+/-- **Uploading after a partially crashed Delete** (explicit instance of `C28_compose`): take any
+    reachable bucket, interrupt a Delete of block `n` after any number `kd` of its calls, then run
+    any uploader on the same block, itself cut anywhere (`ku`): at that point — and after the
+    uploader has been restarted and finished — a visible block is complete.  In particular the
+    replicator's "object already exists ⇒ skip" and the shipper's "meta.json exists ⇒ done" are
+    safe on the leftovers of the Delete, because Delete removes meta.json first. -/
+theorem C28_upload_after_crashed_delete {w : Nat → Block} (hw : WF w) {s : Bucket} (h : Reach w s)
+    (n : Nat) (kd ku : Option Nat) (u u' : Uploader) :
+    let s1 := (exec kd (deleteScript codeDeleteOrder s n) s).bkt
+    let s2 := (exec ku (uploaderScript u s1 n (w n)) s1).bkt
+    let s3 := (exec none (uploaderScript u' s2 n (w n)) s2).bkt
+    (∀ m, Visible s2 m → Complete s2 m) ∧ (∀ m, Visible s3 m → Complete s3 m) := by
+  intro s1 s2 s3
+  have r1 : Reach w s1 := .delete s n kd h
+  have step : ∀ (u : Uploader) (t : Bucket) (k : Option Nat), Reach w t →
+      Reach w (exec k (uploaderScript u t n (w n)) t).bkt := by
+    intro u t k ht
+    cases u
+    · exact .upload t n k ht
+    · exact .ship t n k ht
+    · exact .replicate t n k ht
+  have r2 : Reach w s2 := step u s1 ku r1
+  have r3 : Reach w s3 := step u' s2 none r2
+  exact ⟨fun m => C28_compose hw r2 m, fun m => C28_compose hw r3 m⟩
+
+/-- … and a crash-free uploader run after the crashed Delete makes the block visible again
+    (so it is complete): nothing of the Delete's leftovers is mistaken for a finished upload. -/
+theorem C28_reupload_visible {w : Nat → Block} (s : Bucket) (n : Nat) :
+    Visible (exec none (uploadScript codeUploadOrder n (w n)) s).bkt n := by
+  rw [(exec_none _ s).2.1, uploadScript, muts_map_mu]
+  have hp : ∀ op ∈ uploadOps codeUploadOrder n (w n), IsPut op := by
+    intro op hop
+    simp only [uploadOps, codeUploadOrder, List.flatMap_cons, List.flatMap_nil, phaseOps, List.append_nil,
+      List.mem_append, List.mem_map, List.mem_singleton] at hop
+    rcases hop with ⟨p, _, rfl⟩ | rfl | rfl <;> trivial
+  exact present_after_puts _ s hp (n, metaName) (w n).metaObj (by simp [uploadOps, codeUploadOrder, phaseOps])
+
 -- ---------------------------------------------------------------- the order hypotheses are needed
 
 /-- a one-segment block used in the witnesses below -/
